@@ -1,7 +1,7 @@
 package main
 
 func init() {
-	reg("C16", propCfg{Pkg: "./props/c16", Race: true,
+	reg("C16", propCfg{Pkg: "./props/c16", Race: true, RaceIsViolation: true,
 		Rule: "generated goroutine/channel pipelines run under GOMAXPROCS 1,2,16 with repetitions; expected sequence computed from the specification",
 		Assumptions: assume(
 			"schedules are those the Go runtime produces under yield perturbation, GOMAXPROCS 1/2/16 and repetition: a sample, not an enumeration",
